@@ -42,6 +42,19 @@ Agrees == phase = "done" =>
          \* every accepted non-header line is stored exactly once
          /\ BagOf(SeqMap(Norm, st.lines))
               = BagOf(SeqMap(Norm, SelectSeq(SeqMap(LAMBDA i : LineOf(i), delivered), LAMBDA l : l.rt # "H"))))
+\* whole-document entry points (Gfa(text), from_file: all lines, end of input, validation):
+\* when every reference is defined, the document is refused with VersionError exactly when the
+\* declarative verdict -- now including the dialect -- is an error
+LoadAgrees ==
+  LET ls == SeqMap(LAMBDA i : LineOf(i), delivered)
+      outs == Load(Init0(Cat.cfg), ls)
+      clean == \A o \in outs : PlaceholderIds(o.st) = {} /\ VirtLinkKeys(o.st) = {} IN
+  (delivered # <<>> /\ Cat.cfg.vlevel > 0) =>
+     /\ DeclErrorD(Cat.cfg.version, Cat.cfg.dialect, Lines) => \A o \in outs : o.res # "ok"
+     /\ (\E o \in outs : o.res = "VersionError") =>
+            (DeclErrorD(Cat.cfg.version, Cat.cfg.dialect, Lines)
+             \/ (Cat.cfg.dialect = "rgfa" /\ ~Has1(Lines)))      \* version-neutral document under rGFA
+     /\ (clean /\ DeclErrorD(Cat.cfg.version, Cat.cfg.dialect, Lines)) => \A o \in outs : o.res = "VersionError"
 \* nothing is decided by position: the verdict is the same for every order (follows
 \* from Agrees because DeclError/DeclVersion take a set)
 FailStutters == [][res' # "ok" => st' = st]_vars
